@@ -282,7 +282,7 @@ example : ∃ out, exec 3 Gen.Src.«call_rcu_before_fork» env0 inpBf = .ok out 
     block, exec, eval, evalArgs, execPrim, bindParams, Env.setVar, Env.setPriv, setDst, asLoc, bind, Except.bind, evalBin,
     evalUn, boolV, Val.truthy, absEvC, List.filterMap_cons, clr, crun, cstep, ForkL.bit, hval, listHead, mutexLoc]
 
-example : BfInp [3] inpBf := by
+theorem inpBf_ok : BfInp [3] inpBf := by
   refine ⟨0, rfl, ?_⟩
   rw [if_pos rfl]
   refine ⟨rfl, rfl, rfl, 16, rfl, ?_⟩
@@ -294,5 +294,70 @@ example : BfInp [3] inpBf := by
   refine ⟨16, rfl, ?_⟩
   rw [if_neg (by decide)]
   exact ⟨48, rfl, by rw [if_pos (by decide)]; trivial⟩
+
+example := call_rcu_before_fork_refines [3] 3 env0 inpBf ⟨.idle, [], false⟩ rfl (by simp [env0]) inpBf_ok
+
+/-- helper list `[3]`; the first poll still sees PAUSED (32), the second sees it clear -/
+def inpAfp : List Val :=
+  [.ptr (.obj 3), .int 0, .int 32, .ptr (.obj 3), .int 0, .int (32 : Nat), .int 0, .int (0 : Nat), .int 0]
+
+/-- 9 events, 8 labels; ends at `idle` -/
+example : ∃ out, exec 3 Gen.Src.«call_rcu_after_fork_parent» env0 inpAfp = .ok out ∧
+    out.events = [.ext "cds_list_for_each_entry.first" [.ptr (.glob "call_rcu_data_list")] (.ptr (.obj 3)),
+      .ext "cds_list_for_each_entry.next" [.ptr (.glob "call_rcu_data_list"), .ptr (.obj 3)] (.int 0),
+      .rmw .uand (.field (.obj 3) "flags") (.int 18446744073709551599) (.int 32) 5,
+      .ext "cds_list_for_each_entry.first" [.ptr (.glob "call_rcu_data_list")] (.ptr (.obj 3)),
+      .ext "cds_list_for_each_entry.next" [.ptr (.glob "call_rcu_data_list"), .ptr (.obj 3)] (.int 0),
+      .ld (.field (.obj 3) "flags") (.int 32) 0, .ext "poll" [.int 0, .int 0, .int 1] (.int 0),
+      .ld (.field (.obj 3) "flags") (.int 0) 0,
+      .ext "pthread_mutex_unlock" [.ptr (.glob "call_rcu_mutex")] (.int 0)] ∧
+    out.events.filterMap (absEvC [3]) = [.first (some 3), .next 3 none, .clrPause 3, .first (some 3), .next 3 none,
+      .ldFl 3 32, .ldFl 3 0, .unlock] ∧
+    clr [3] ⟨.apFirst, [3], false⟩ out.events = some ⟨.idle, [3], false⟩ ∧ out.ctl = .normal := by
+  simp [Gen.Src.«call_rcu_after_fork_parent», Gen.Src.«call_rcu_unlock», iterate, inpAfp, env0,
+    block, exec, eval, evalArgs, execPrim, bindParams, Env.setVar, Env.setPriv, setDst, asLoc, bind, Except.bind, evalBin,
+    evalUn, boolV, Val.truthy, absEvC, List.filterMap_cons, clr, crun, cstep, ForkL.bit, hval, listHead, mutexLoc]
+
+theorem inpAfp_ok : AfpInp [3] inpAfp := by
+  refine ⟨rfl, rfl, rfl, rfl, ?_⟩
+  simp only [PollInp]
+  refine ⟨32, rfl, ?_⟩
+  rw [if_neg (by decide)]
+  exact ⟨0, rfl, by rw [if_pos (by decide)]; exact ⟨rfl, trivial⟩⟩
+
+example := call_rcu_after_fork_parent_refines [3] false 3 env0 inpAfp (by simp [env0]) inpAfp_ok
+
+/-- bp `before_fork`: 4 events, `fill ; sigBlock ; lockGp ; lockRg`, ends at `atFork` with the mask 5 saved -/
+example : ∃ out, exec 1 Gen.Src.«bp.urcu_bp_before_fork» env0 [.int 0, .int 0, .int 0, .int 0] = .ok out ∧
+    out.events = [.ext "sigfillset" [.ptr (.glob "&newmask")] (.int 0),
+      .ext "pthread_sigmask" [.int 0, .ptr (.glob "&newmask"), .ptr (.glob "&oldmask")] (.int 0),
+      .ext "mutex_lock" [.ptr (.glob "rcu_gp_lock")] (.int 0), .ext "mutex_lock" [.ptr (.glob "rcu_registry_lock")] (.int 0)] ∧
+    out.events.filterMap absEvB = [.fill, .sigBlock, .lockGp, .lockRg] ∧
+    blr (.at .idle) out.events = some (.at .atFork) ∧ out.env.priv savedMask = some (.int 5) ∧ out.ctl = .normal := by
+  simp [Gen.Src.«bp.urcu_bp_before_fork», env0,
+    block, exec, eval, evalArgs, execPrim, bindParams, Env.setVar, Env.setPriv, setDst, asLoc, bind, Except.bind,
+    absEvB, List.filterMap_cons, blr, brun, bstep, oldmask, newmask, savedMask, gpLock, rgLock]
+
+example := urcu_bp_before_fork_refines 1 env0 [.int 0, .int 0, .int 0, .int 0] (.int 5) (by simp [env0, oldmask])
+
+/-- bp `after_fork_parent`: 3 events, `unlockRg ; unlockGp ; sigSet`, `&oldmask` = the saved mask 5 -/
+example : ∃ out, exec 1 Gen.Src.«bp.urcu_bp_after_fork_parent» env0 [.int 0, .int 0, .int 0] = .ok out ∧
+    out.events = [.ext "mutex_unlock" [.ptr (.glob "rcu_registry_lock")] (.int 0),
+      .ext "mutex_unlock" [.ptr (.glob "rcu_gp_lock")] (.int 0),
+      .ext "pthread_sigmask" [.int 2, .ptr (.glob "&oldmask"), .int 0] (.int 0)] ∧
+    out.events.filterMap absEvB = [.unlockRg, .unlockGp, .sigSet] ∧
+    blr (.at .ap1) out.events = some (.at .idle) ∧ out.env.priv oldmask = some (.int 5) ∧ out.ctl = .normal := by
+  simp [Gen.Src.«bp.urcu_bp_after_fork_parent», env0,
+    block, exec, eval, evalArgs, execPrim, bindParams, Env.setVar, Env.setPriv, setDst, asLoc, bind, Except.bind,
+    absEvB, List.filterMap_cons, blr, brun, bstep, oldmask, newmask, savedMask, gpLock, rgLock]
+
+example := urcu_bp_after_fork_parent_refines 1 env0 [.int 0, .int 0, .int 0] (.int 5) (by simp [env0, savedMask])
+example := urcu_bp_after_fork_child_tail_refines 1 env0 [.int 0, .int 0, .int 0] (.int 5) (by simp [env0, savedMask])
+
+/-- the local runs lift to L2 (`call_rcu_lift` along the labels of the first example): thread 0 of a 1-thread
+configuration, helper list `[3]`… here on the smallest L2 state where it is meaningful: after `createDflt` the list is
+`[0]`; `bfLock ; bfPause ; bfPauseDone` are the L2 labels of `lock [0] ; first ; next ; orPause 0 ; … ; first` -/
+example : (Fork.run ⟨1⟩ Fork.init [.createDflt 0, .bfLock 0, .bfPause 0, .bfPauseDone 0]).map
+    (fun s => s.upc 0 == .bfWait [0] && s.pause 0 && s.mutex == some 0) = some true := by decide
 
 end UrcuVerif.Props.SrcFork
